@@ -103,10 +103,12 @@ E_Classify ==  \* imp.rs:213-273  (no syscall)
             /\ UNCHANGED <<cur, exp, rem, part>>
        ELSE LET p0 == Head(rem)  p == IF p0 = "" THEN "." ELSE p0 IN
             /\ rem' = Tail(rem)
-            /\ part' = p
+            /\ part' = (IF p = ".." /\ exp = <<>> /\ ClampDotDot THEN "." ELSE p)
             /\ IF p = ".." THEN
                     IF exp = <<>> /\ ClampDotDot
-                    THEN cur' = R /\ pc' = "loop" /\ UNCHANGED exp
+                    \* ".." at the root stays at the root: the walk continues into "." of the root, so that the result is a
+                    \* fresh O_PATH description (as openat2 returns) and not a duplicate of the caller's root handle
+                    THEN cur' = R /\ pc' = "open" /\ UNCHANGED exp
                     ELSE exp' = (IF exp = <<>> THEN exp ELSE Front(exp)) /\ pc' = "open" /\ UNCHANGED cur
                ELSE IF p = "." THEN pc' = "open" /\ UNCHANGED <<cur, exp>>
                ELSE exp' = Append(exp, p) /\ pc' = "open" /\ UNCHANGED cur
